@@ -39,6 +39,18 @@ fn extra_units() -> Vec<Unit> {
         let alt = if k % 2 == 0 { P::Alt(vec![init.clone(), other]) } else { P::Alt(vec![other, init.clone()]) };
         out.push(Unit { opts: Opts::new(P::Seq(vec![P::Switch(hn(Names::both('v', "verbose"), "say more")), alt])), prefixes: vec![] });
     }
+    // a command and a positional of one level spelled alike (name = metavariable, same help):
+    // two rows, one in each list
+    {
+        let mut task = Opts::new(P::Seq(vec![P::Switch(hn(Names::short('l'), "list them"))]));
+        task.cfg.descr = Some(DocSpec::plain("Task to work with"));
+        let cmd = P::Cmd { name: "task".into(), shorts: vec![], longs: vec![], inner: Box::new(task), adjacent: false, help: None };
+        let p = pos("task", "Task to work with");
+        for order in 0..2 {
+            let alt = if order == 0 { P::Alt(vec![cmd.clone(), p.clone()]) } else { P::Alt(vec![p.clone(), cmd.clone()]) };
+            out.push(Unit { opts: Opts::new(P::Seq(vec![P::Switch(hn(Names::both('v', "verbose"), "say more")), alt])), prefixes: vec![] });
+        }
+    }
     // chains of adjacent commands under many
     let adj = |name: &str, inner: Vec<P>, descr: &str| {
         let mut o = Opts::new(P::Seq(inner));
